@@ -1,0 +1,17 @@
+//go:build verif
+
+// Contracts for the verif build tag: comment-only, read by /verif/engine (govc).
+package views
+
+//@ # ---- C17: per-client views answer by containment, FIRST matching view in declaration order: when the loop reaches a
+//@ # view, no earlier view contained the client; the first view that does contain it decides alone - it answers from its
+//@ # own records or, having none for the question, hands the query on - and no later view is consulted. Resolver-internal
+//@ # sub-queries and clients without an address skip views entirely.
+//@ func (*Views).ServeDNS
+//@   abstract
+//@   nosafety all pre
+//@   loop 1 invariant calls("(*internal/ipset.Set).ContainsIP") == rangeidx && (rangeidx > 0 ==> !lastret("(*internal/ipset.Set).ContainsIP"))
+//@   assert at call (*internal/ipset.Set).ContainsIP#1: arg1 == lastret("(middleware.ResponseWriter).RemoteIP") && arg0 == cv.networks
+//@   assert at call (*middleware.Chain).Next#1: lastret("(middleware.ResponseWriter).Internal") || len(v.views) == 0
+//@   assert at call (*middleware.Chain).Next#2: lastret("(middleware.ResponseWriter).RemoteIP") == nil
+//@   assert at call (middleware.ResponseWriter).WriteMsg#1: lastret("(*internal/ipset.Set).ContainsIP") && calls("(middleware.ResponseWriter).WriteMsg") == 0
